@@ -1257,6 +1257,101 @@ run_s5(void *arg)
 	vh_fini();
 }
 
+// ---- S6: reject while the reaper is busy ----------------------------------------------
+// notification callbacks run on the reaper thread and may take their time.  The ADD_PRE
+// callback of a new pipe P closes an older pipe Q and rejects P; Q's REM_POST callback then
+// keeps the reaper busy (virtual 100 ms), so P's teardown waits.  The peer behind P has a
+// message ready the moment it connects: it must not come out of the rejected pipe.
+static int      s6_slow_ms;
+static uint32_t s6_q_id;
+static int      s6_armed;
+static void
+s6_notify(nng_pipe p, nng_pipe_ev ev, void *arg)
+{
+	if (ev == NNG_PIPE_EV_ADD_PRE && s6_armed && p.id != s6_q_id) {
+		nng_pipe q = NNG_PIPE_INITIALIZER;
+		q.id       = s6_q_id;
+		s6_armed   = 0;
+		nng_pipe_close(q);
+		reject_left[0] = 1; // the ledger callback below rejects P
+	}
+	notify(p, ev, arg);
+	if (ev == NNG_PIPE_EV_REM_POST && p.id == s6_q_id && s6_slow_ms > 0)
+		nng_msleep(s6_slow_ms);
+}
+
+static void
+run_s6(void *arg)
+{
+	int        proto = (int) (intptr_t) arg; // 1 push->pull, 2 req->rep
+	nng_socket a, b1, b2;
+	char       url[] = "inproc://c14s6";
+	vh_init(0);
+	ledger_reset();
+	s6_armed = 0;
+	if (proto == 1) {
+		VH_OK(nng_pull0_open(&a));
+		VH_OK(nng_push0_open(&b1));
+		VH_OK(nng_push0_open(&b2));
+	} else {
+		VH_OK(nng_rep0_open(&a));
+		VH_OK(nng_req0_open(&b1));
+		VH_OK(nng_req0_open(&b2));
+	}
+	SK[0] = a;
+	for (int ev = NNG_PIPE_EV_ADD_PRE; ev <= NNG_PIPE_EV_REM_POST; ev++)
+		VH_OK(nng_pipe_notify(a, ev, s6_notify, (void *) (intptr_t) 0));
+	watch(1, b2);
+	VH_OK(nng_socket_set_ms(b1, NNG_OPT_RECONNMINT, 1000));
+	VH_OK(nng_socket_set_ms(b1, NNG_OPT_RECONNMAXT, 1000));
+	VH_OK(nng_socket_set_ms(b2, NNG_OPT_RECONNMINT, 1000));
+	VH_OK(nng_socket_set_ms(b2, NNG_OPT_RECONNMAXT, 1000));
+	VH_OK(nng_socket_set_int(b2, NNG_OPT_SENDBUF, 2));
+	VH_OK(nng_listen(a, url, NULL, 0));
+	VH_OK(nng_dial(b1, url, NULL, 0));
+	vs_settle();
+	if (NPI < 1)
+		vs_fail("harness:s6", "no first pipe");
+	s6_q_id    = PI[0].id;
+	s6_slow_ms = vs_choose(VK_ENV, 2) ? 100 : 0;
+	int early  = vs_choose(VK_ENV, 2); // message queued before / sent right after the dial
+	if (early)
+		vh_send_nb(b2, "m0", 3);
+	s6_armed = 1;
+	vs_window(1);
+	int drv = nng_dial(b2, url, NULL, 0);
+	if (!early)
+		vh_send_nb(b2, "m0", 3);
+	vs_window(0);
+	if (drv != 0)
+		vs_fail("harness:s6", "dial: %s", nng_strerror(drv));
+	// the application keeps receiving for 80 ms
+	for (int t = 0; t < 8; t++) {
+		vs_settle();
+		drain(0, NULL, 0);
+		vs_sleep(10);
+	}
+	vs_nontrivial();
+	vs_sleep(100);
+	vs_settle();
+	drain(0, NULL, 0);
+	if (n_rejected[0] != 1)
+		vs_fail("harness:s6", "rejected %d pipes", n_rejected[0]);
+	close_sock(1);
+	closed_at[0] = -1;
+	nng_socket_close(b1);
+	close_sock(0);
+	vs_settle();
+	vs_sleep(120);
+	vs_settle();
+	ledger_final();
+	char ha[80];
+	ledger_summary(0, ha, sizeof(ha));
+	vs_outcome("A[%s] slow=%d early=%d m0=%s", ha, s6_slow_ms, early,
+	    (seen_mask & 1) ? "delivered-later" : "not-delivered");
+	vh_fini();
+}
+
 // ---- driver --------------------------------------------------------------------
 static void
 explore(const char *name, void (*fn)(void *), void *arg, int p, int sw, int t,
@@ -1315,6 +1410,8 @@ main(int argc, char **argv)
 				n5++;
 			}
 	}
+	explore("S6-reject-busy-reaper-pushpull", run_s6, (void *) (intptr_t) 1, 1, 1, 0, 1);
+	explore("S6-reject-busy-reaper-reqrep", run_s6, (void *) (intptr_t) 2, 1, 1, 0, 1);
 	static s4arg s4[] = { { 0 }, { 1 }, { 2 } };
 	static const char *s4n[] = { "S4-accept-pair0", "S4-accept-pull",
 		"S4-accept-rep" };
